@@ -10,6 +10,7 @@ import (
 	"github.com/Eyevinn/mp4ff/hevc"
 	"pgregory.net/rapid"
 
+	"verif/internal/esgen"
 	"verif/internal/harness"
 	"verif/internal/nalgen"
 )
@@ -60,53 +61,18 @@ func hevcCheckPPS(c hevcPPSCase) *harness.Fail {
 	return hevcComparePPS(&c.PPS, got, ctx)
 }
 
-// hevcDistinct draws n distinct values from 0..max.
-func hevcDistinct(t *rapid.T, n, max int, l string) []int {
-	seen := map[int]bool{}
-	var out []int
-	for len(out) < n {
-		v := int(hevcInt(t, 0, int64(max), l))
-		for seen[v] {
-			v = (v + 1) % (max + 1)
-		}
-		seen[v] = true
-		out = append(out, v)
-	}
-	return out
-}
-
-// hevcGenSPSSet draws n lean SPS trees with distinct ids that differ in the fields a slice header depends on.
-func hevcGenSPSSet(t *rapid.T, n int, maxDim int) []nalgen.HEVCSPSTree {
-	ids := hevcDistinct(t, n, 15, "spsid")
-	poc0 := rapid.IntRange(0, 12).Draw(t, "poc0")
-	sao0 := rapid.IntRange(0, 1).Draw(t, "sao0")
-	var out []nalgen.HEVCSPSTree
-	for i := 0; i < n; i++ {
-		o := hevcSPSOpts{ID: ids[i], Lean: true, Log2Poc: (poc0 + 5*i) % 13, SAO: (sao0 + i) % 2, MaxDim: maxDim}
-		out = append(out, *hevcGenSPS(t, o, fmt.Sprintf("s%d", i)))
-	}
-	return out
-}
-
 func TestHEVCPPS(t *testing.T) {
 	harness.RunRapid(t, "pps", func(rt *rapid.T) {
-		nSPS := rapid.IntRange(1, 3).Draw(rt, "nsps")
-		spss := hevcGenSPSSet(rt, nSPS, 16888)
-		ref := rapid.IntRange(0, nSPS-1).Draw(rt, "ref")
 		// pps id: often the id of ANOTHER SPS in the map (a parser that confuses the two ids picks the wrong SPS)
-		id := -1
-		if nSPS > 1 && hevcPct(rt, 50, "idtrap") {
-			id = int(spss[(ref+1)%nSPS].SPS.SpsID)
-		}
-		pps := hevcGenPPS(rt, &spss[ref], id, "p")
+		spss, pps, _ := esgen.HEVCGenPPSSet(rt)
 		var ptrs []*nalgen.HEVCSPSTree
 		for i := range spss {
 			ptrs = append(ptrs, &spss[i])
 		}
 		c := hevcPPSCase{SPS: spss, PPS: *pps, RelaxInterRPS: hevcRelaxFor(ptrs...)}
-		classes := hevcPPSClasses(pps)
+		classes := esgen.HEVCPPSClasses(pps)
 		raw, _ := json.Marshal(c)
-		harness.Rec.Case(hevcNontrivial(classes, "hevc-pps-id-differs-from-sps-id"), raw, classes...)
+		harness.Rec.Case(esgen.HEVCNontrivial(classes, "hevc-pps-id-differs-from-sps-id"), raw, classes...)
 		if harness.Rec.WantSample() {
 			nal, _ := nalgen.HEVCWritePPS(pps)
 			c.Hex = fmt.Sprintf("%x", nal)
